@@ -3,10 +3,11 @@
 Applies seeded/<id>/patch.diff to /repo, runs ./check <property> --tier <tier>, reverts /repo.
 Writes seeded/<id>/meta.json and seeded/RESULTS.md."""
 import json, os, re, shutil, subprocess, sys, time
-ROOT = '/verif'
+ROOT = os.environ.get('VERIF_ROOT') or '/verif'
+REPO = os.environ.get('VERIF_REPO') or '/repo'
 # evidence files are rewritten by every check run: keep the clean-tree ones (evidence_backup) and put them back at the end
 if os.path.isdir(f'{ROOT}/evidence'):
-    shutil.rmtree('/tmp/evidence_backup', ignore_errors=True); shutil.copytree(f'{ROOT}/evidence', '/tmp/evidence_backup')
+    shutil.rmtree(f'/tmp/evidence_backup{os.getpid()}', ignore_errors=True); shutil.copytree(f'{ROOT}/evidence', f'/tmp/evidence_backup{os.getpid()}')
 tier = sys.argv[1] if len(sys.argv) > 1 else 'quick'
 only = sys.argv[2:]  # optional seed ids
 rows = []
@@ -17,8 +18,8 @@ for sid in sorted(os.listdir(f'{ROOT}/seeded')):
     if only and sid not in only:
         continue
     pid = sid.split('-')[0]
-    assert subprocess.run(['git', '-C', '/repo', 'diff', '--quiet']).returncode == 0, '/repo not clean'
-    ap = subprocess.run(['git', '-C', '/repo', 'apply', f'{d}/patch.diff'], capture_output=True, text=True)
+    assert subprocess.run(['git', '-C', REPO, 'diff', '--quiet']).returncode == 0, '/repo not clean'
+    ap = subprocess.run(['git', '-C', REPO, 'apply', f'{d}/patch.diff'], capture_output=True, text=True)
     if ap.returncode != 0:
         rows.append((sid, pid, 'patch does not apply to current /repo HEAD', '', 0)); continue
     t0 = time.time()
@@ -26,7 +27,7 @@ for sid in sorted(os.listdir(f'{ROOT}/seeded')):
         p = subprocess.run(['./check', pid, '--tier', tier], cwd=ROOT, capture_output=True, text=True, timeout=3600)
         out, rc = p.stdout + p.stderr, p.returncode
     finally:
-        subprocess.run(['git', '-C', '/repo', 'checkout', '--', '.'])
+        subprocess.run(['git', '-C', REPO, 'checkout', '--', '.'])
     wall = round(time.time() - t0)
     viol = re.findall(r'^VIOLATION .*$', out, re.M)
     obl = re.findall(r'failed obligation (\S+)', out)
@@ -61,5 +62,5 @@ with open(f'{ROOT}/seeded/RESULTS.md', 'w') as f:
     for r in allrows:
         f.write('| ' + ' | '.join(str(x) for x in r) + ' |\n')
 
-if os.path.isdir('/tmp/evidence_backup'):
-    shutil.rmtree(f'{ROOT}/evidence', ignore_errors=True); shutil.copytree('/tmp/evidence_backup', f'{ROOT}/evidence')
+if os.path.isdir(f'/tmp/evidence_backup{os.getpid()}'):
+    shutil.rmtree(f'{ROOT}/evidence', ignore_errors=True); shutil.copytree(f'/tmp/evidence_backup{os.getpid()}', f'{ROOT}/evidence')
